@@ -58,6 +58,12 @@ CLAIMED = {
                      "equal and 0 for opposite headings are real-arithmetic lemmas over that formula.",
                 note="Assumed: yaw_pitch_roll[0] is the ZYX yaw in (-pi, pi], equal for q and -q; transforming by the identity matrix changes nothing. "
                      "Small roll/pitch coupling is not addressed. Floats as reals.", ref="5/C09"),
+    "C13": dict(text="Frame conditions of PerceptionEvaluationManager._filter_objects and add_frame_result are proved for all inputs: no write to the caller's "
+                     "estimate list, to the ground-truth frame handed in (the loaded dataset) or to any earlier frame result; the evaluated frame is a new object "
+                     "with the same stamp and transforms; exactly one new result is appended.",
+                note="filter_objects / get_object_results / the frame-result constructor / evaluate_frame are cut at contracts (evaluate_frame may write only "
+                     "its own result's object_results and its own frame's objects: body under C03). Scene pooling, one-frame scene == frame score, order "
+                     "independence and determinism rest on the native harness (bounded: sequences of up to 6 calls on up to 3 frames).", ref="5/C13"),
 }
 NA_REASON = "check not built yet in this session (planned in DESIGN.md section 5); not claimed"
 ALL = [f"C{n:02d}" for n in range(1, 21)]
